@@ -1,0 +1,9 @@
+package dawn
+
+// waiterName names the module on whose behalf a load waits, for the verification hooks ("" for a package load).
+func waiterName(waiter *module) string {
+	if waiter == nil {
+		return ""
+	}
+	return waiter.label.String()
+}
